@@ -77,6 +77,7 @@ inductive Op where
   | reset (h : Nat)
   | unify (h : Nat)
   | dtor (h : Nat)            -- ~CountingPtr
+  | objassign (h s : Nat)     -- *h = *s : ReferenceCounter::operator= leaves the counts unchanged
 deriving DecidableEq, Repr
 
 /-- handle variables 4,5 have the base-class pointer type -/
@@ -91,6 +92,7 @@ def Op.wf (s : St) : Op → Bool
   | .assign h x | .massign h x => (s.ptr? h).isSome && (s.ptr? x).isSome && (isB h || !isB x)
   | .swap h x => (s.ptr? h).isSome && (s.ptr? x).isSome && isB h == isB x
   | .reset h | .unify h | .dtor h => (s.ptr? h).isSome
+  | .objassign h x => (s.ptr? h).join.isSome && (s.ptr? x).join.isSome
 
 def step (s : St) : Op → Except String St
   | .make h => do
@@ -148,6 +150,7 @@ def step (s : St) : Op → Except String St
       let p := (s.ptr? h).getD none
       let s ← decRef s p
       pure (s.setH h none)
+  | .objassign _ _ => pure s    -- `ReferenceCounter& operator=(const ReferenceCounter&) { return *this; }`
 
 /-- number of handle variables pointing to object `i` -/
 def St.handlesTo (s : St) (i : Nat) : Nat := s.h.count (some (some i))
